@@ -1,10 +1,79 @@
 import Fabio.Generated.C20
-import Fabio.Model.C20
-/-! Obligations over the facts regenerated from `/repo` on every run. -/
+import Fabio.Model.C20Spec
+/-!
+Obligations over the facts regenerated from `/repo` on every run (`tools/factgen/c20.go`): the tables and
+constants the model of the access logger depends on, and the call shapes behind "UTC", "never nil",
+"read only". Core only, `decide`/`rfl`.
+-/
 namespace Fabio.Props.C20Facts
-open Fabio
+open Fabio Fabio.Model.C20
+set_option maxRecDepth 8000
 
-/-- The access-log field table is the documented one. -/
-theorem field_table_pinned : Generated.C20.fieldNames.length = 31 := by decide
+/-- The `fields` map of logger/pattern.go has exactly the names of the model's table. -/
+theorem field_table_pinned :
+    Generated.C20.fieldNames.all (fieldNames.contains ·) = true ∧
+    fieldNames.all (Generated.C20.fieldNames.contains ·) = true ∧
+    Generated.C20.fieldNames.length = fieldNames.length := by decide
+
+/-- The package comment of logger/logger.go lists `$header.<name>` and the fields of the specification. -/
+theorem documented_fields_pinned :
+    Generated.C20.docFields = "$header.<name>" :: Spec.documentedFields := by decide
+
+/-- Every documented field exists; the only undocumented one is `$upstream_service`. -/
+theorem documented_fields_known :
+    Spec.documentedFields.all (Generated.C20.fieldNames.contains ·) = true ∧
+    Generated.C20.fieldNames.filter (fun n => !Spec.documentedFields.contains n) = ["$upstream_service"] := by decide
+
+/-- Both predefined formats parse (in the model) into known fields only. -/
+theorem common_format_parses :
+    (match parse Generated.C20.CommonFormat.toList with | .ok (.ok p) => p.length | _ => 0) = 9 := by decide
+theorem combined_format_parses :
+    (match parse Generated.C20.CombinedFormat.toList with | .ok (.ok p) => p.length | _ => 0) = 14 := by decide
+
+theorem month_names_pinned : Generated.C20.shortMonthNames.map String.toList = shortMonthNames := by decide
+
+/-- `atoi`: 128-byte scratch array; every pad argument in the package leaves room for digits and sign. -/
+theorem atoi_buffer_pinned : Generated.C20.atoiBufLen = 128 := by decide
+theorem atoi_pads_pinned : Generated.C20.atoiPads = [0, 2, 3, 4, 6, 9] ∧ Generated.C20.atoiPads.all (· ≤ 127) = true := by decide
+
+theorem i32toa_buffer_pinned : Generated.C20.i32toaBufLen = 11 := by decide
+
+theorem digit16_pinned : Generated.C20.digit16 = "0123456789abcdef" ∧ Generated.C20.digit16.toList = digit16 := by decide
+
+/-- `uint16base16`: "0x0000" with digit k taken from `(n & mask) >> shift`, as in the model. -/
+theorem uint16_digits_pinned :
+    Generated.C20.uint16Template = "0x0000" ∧
+    Generated.C20.uint16Digits = [(2, 0xf000, 12), (3, 0x0f00, 8), (4, 0x00f0, 4), (5, 0x000f, 0)] := by decide
+
+/-- `uuid.ToString`: position table, dash positions, hex table and buffer size are the model's. -/
+theorem uuid_tables_pinned :
+    Generated.C20.uuidIdx = uuidIdx ∧ Generated.C20.uuidDashes = uuidDashes ∧
+    Generated.C20.halfbyte2hexchar.map Char.ofNat = halfbyte2hexchar ∧ Generated.C20.uuidBufLen = 36 := by decide
+
+/-- D25: every calendar accessor (Year … Nanosecond) in the five wall-clock renderers is applied to
+`e.End.UTC()`; no other field touches the calendar; `End` is otherwise used through `Sub` and `UnixNano`
+only (location independent). -/
+theorem time_fields_use_utc :
+    Generated.C20.calendarAccessorsNotOnUTC = [] ∧
+    Generated.C20.timeFieldAccessorCalls =
+      [("$time_common", 6), ("$time_rfc3339", 6), ("$time_rfc3339_ms", 7), ("$time_rfc3339_ns", 7), ("$time_rfc3339_us", 7)] ∧
+    Generated.C20.methodsCalledOnEnd = ["Sub", "UTC", "UnixNano"] := by
+  decide
+
+/-- The field functions never assign through the event (logging cannot alter request or response). -/
+theorem renderers_read_only : Generated.C20.rendererWritesToEvent = [] := by decide
+
+/-- `pattern.write`: one newline call, skipped when the buffer is empty (the model's `write`; D26). -/
+theorem write_shape_pinned :
+    Generated.C20.writeReturnsEarlyOnEmptyBuffer = true ∧ Generated.C20.writeNewlineCalls = 1 := by decide
+
+/-- The only call site builds the event with a non-nil `Response` literal, `UpstreamAddr = targetURL.Host`
+(which has no port for a route to `http://backend/`), and the request it served. -/
+theorem call_site_pinned :
+    Generated.C20.eventSite.lookup "Response" = some "&http.Response{…}" ∧
+    Generated.C20.eventSite.lookup "UpstreamAddr" = some "targetURL.Host" ∧
+    Generated.C20.eventSite.lookup "Request" = some "r" ∧
+    Generated.C20.eventSite.lookup "End" = some "end" ∧
+    Generated.C20.eventSite.lookup "Start" = some "start" := by decide
 
 end Fabio.Props.C20Facts
